@@ -339,9 +339,15 @@ def main(argv):
         for f in rl:
             if prop in f.props or not f.props:
                 undecided.append('%s: resource limit in %s' % (r['unit'], f.function))
+    bounded_run = bounded_passed = 0
     for e in extra:
-        obligations += e.get('obligations', 0)
-        discharged += e.get('discharged', 0)
+        if e.get('bounded'):
+            # a bounded execution is never counted among the proof obligations
+            bounded_run += 1
+            bounded_passed += 1 if (e.get('discharged') and not e.get('known_hits')) else 0
+        else:
+            obligations += e.get('obligations', 0)
+            discharged += e.get('discharged', 0)
         trusted |= set(e.get('trusted', []))
         samples += e.get('samples', [])
         if e.get('cmd'):
@@ -430,7 +436,9 @@ def main(argv):
         'coverage': {
             'obligations': obligations,
             'discharged': discharged,
-            'obligation_unit': 'one per exec function / proof lemma as counted by Verus (verified+errors); Kani harnesses and bounded executions (labelled bounded, not proofs) counted one each',
+            'obligation_unit': 'one per exec function / proof lemma as counted by Verus (verified+errors); loop-free full-domain Kani harnesses counted one each; bounded executions are NOT counted here (see bounded_checks_run / bounded_checks_passed)',
+            'bounded_checks_run': bounded_run,
+            'bounded_checks_passed': bounded_passed,
             'tagged_clauses_for_property': tagged,
             'checker_cmd': ' && '.join(checker_cmds) if checker_cmds else 'none',
             'trusted_base': sorted(trusted),
@@ -455,7 +463,9 @@ def main(argv):
     write_json(os.path.join(EVIDENCE, prop + '.json'), ev)
     for l in lines:
         print(l)
-    print('%s %s: %d/%d obligations discharged, %d violation(s), %d known finding(s), %.1fs%s' % (
-        prop, tier, discharged, obligations, len(violations), len(known_hits), wall,
+    print('%s %s: %d/%d obligations discharged%s, %d violation(s), %d known finding(s), %.1fs%s' % (
+        prop, tier, discharged, obligations,
+        ('; bounded executions (not proofs) %d/%d passed' % (bounded_passed, bounded_run)) if bounded_run else '',
+        len(violations), len(known_hits), wall,
         ' [UNDECIDED]' if rc == 2 else ''))
     return rc
